@@ -65,6 +65,20 @@ CLAIMS = {
         'instantiates the model parameter at run time; reggen, regexp.Match not modelled. Known finding F18d (misplaced anchors). No axioms.',
    technique='Coq proof (loop invariant, characterisation of acceptance) + model/implementation correspondence + oracle for the library-dependent clauses',
    ref='section 9, C18'),
+ 'C16': dict(
+   category='proof',
+   text='Coq theorems: bytes.LineAndColumn/NewLineSymbol give 1 + number of terminators before the byte and 1 + distance to the line '
+        'start for every index of every LF, CR or CR LF text (spec in Spec/LineColSpec.v); the line start lies at or before the index '
+        'and the pointer line renders for every index inside the text; over the error-format table regenerated from /repo on every '
+        'run: each of the ~250 F(...) call sites passes as many arguments as its format has verbs, only %q %s %d %v are used, every '
+        'code constant has a format, codes are distinct. That an entry point returns only designed errors positioned inside the text is '
+        'a theorem for the JSON document scanner (C12_total), number scanner and regex schema; for the schema and enum scanners it is '
+        'established on the explored inputs only (every truncation and token mutation of valid inputs under LF/CRLF/CR, all short '
+        'strings), where each rejection is compared with the model (line, column, quoted line, pointer) and judged by the oracle.',
+   note='Trusted: Coq kernel incl. vm_compute; translator gotables (AST of errs/code.go and of all call sites); model LineCol.v tied by '
+        'correspondence; harness with hook kit.VerifHasIndex. Partial for the schema/enum entry points (scanners not yet modelled).',
+   technique='Coq proofs (line/column arithmetic, rendering, regenerated format table) + correspondence + exploration of rejections per entry point',
+   ref='section 9, C16'),
 }
 
 def main():
